@@ -17,6 +17,7 @@ import (
 type KnownFinding struct {
 	Property   string
 	Obligation string // exact obligation name
+	Scope      bool   // not a finding of this property: an input class outside the claim (the deviation is recorded under another property)
 	LaneWhen   string // optional per-lane input class (vector handlers): lanes inside it are exempt from the clauses
 	When       string // optional input class (spec expression): the finding is known only inside it
 	Case       string // "@known<k>" suffix the obligation carries when When is set
@@ -38,11 +39,14 @@ func loadKnownFindings(path string) (known []KnownFinding, fixed []string) {
 			continue
 		}
 		// finding: property=<id> obligation=<name> :: <what>
-		if !strings.HasPrefix(ln, "finding:") {
+		// scope: property=<id> obligation=<name> lanewhen={...} :: <why these lanes are outside the claim>
+		isScope := strings.HasPrefix(ln, "scope:")
+		if !strings.HasPrefix(ln, "finding:") && !isScope {
 			continue
 		}
 		var k KnownFinding
-		rest := strings.TrimSpace(strings.TrimPrefix(ln, "finding:"))
+		k.Scope = isScope
+		rest := strings.TrimSpace(strings.TrimPrefix(strings.TrimPrefix(ln, "finding:"), "scope:"))
 		parts := strings.SplitN(rest, "::", 2)
 		if len(parts) == 2 {
 			k.What = strings.TrimSpace(parts[1])
@@ -434,6 +438,7 @@ func runCheck(o checkOpts) *checkResult {
 			samples = append(samples, map[string]interface{}{"obligation": ob.Name, "goal_smt": trunc(ob.Goal.S, 600), "backend": ob.Solver})
 		}
 	}
+	var scopeNotes []string
 	for _, k := range known {
 		if k.LaneWhen == "" || k.Property != o.prop {
 			continue
@@ -444,6 +449,10 @@ func runCheck(o checkOpts) *checkResult {
 		}
 		for _, ct := range mine {
 			if ct.FullName() == fn && !knownHit[k.Obligation+"|"+k.LaneWhen] {
+				if k.Scope {
+					scopeNotes = append(scopeNotes, fmt.Sprintf("claim scope: %s lanes{%s} are outside the claim: %s", k.Obligation, k.LaneWhen, k.What))
+					continue
+				}
 				knownHit[k.Obligation+"|"+k.LaneWhen] = true
 				nLaneKnown++
 				say("KNOWN-FINDING: property=%s %s lanes{%s} :: %s", o.prop, k.Obligation, k.LaneWhen, k.What)
@@ -451,6 +460,9 @@ func runCheck(o checkOpts) *checkResult {
 		}
 	}
 	res.known = len(knownHit)
+	for _, n := range scopeNotes {
+		w.noteAssumed(n)
+	}
 	for _, ob := range res.failedObls {
 		payload := map[string]interface{}{"obligation": ob.Name, "kind": ob.Kind, "function": ob.Func, "position": ob.Pos.String(),
 			"note": ob.Note, "verdict": ob.Verdict, "solver": ob.Solver, "solver_output": ob.Output}
